@@ -12,7 +12,7 @@ from .. import ispace as I
 from ..ispace import IS, Ctx, OTHER, eta_grid_tag, G
 from .. import lints
 from .C01 import geometry_check, clone, xsrc
-from .C03 import init_buffer, gather_geometry
+from .C03 import init_buffer, gather_geometry, coords_follow_comms
 
 Q_INIT = "Layout.__init__"
 
@@ -436,12 +436,21 @@ class SplitModel:
                 self.problems.append(("wrong", str(w)))
                 self.wrong = getattr(self, "wrong", []) + [(st, str(w))]
         # the table: the Tab of length p+1 the stored slices were cut from
-        for nm, v in self.env.items():
-            if isinstance(v, Tab) and nm in self.defs and v.expr.has(_n):
-                # the table the stored slices are cut from: the last such definition that a sink reads
-                used = any(any(isinstance(x, ast.Name) and x.id == nm for x in ast.walk(st)) for _, st in self.sinks.values())
-                if used or self.table is None:
-                    self.table = (nm, v, self.defs[nm])
+        cands = [(nm, v) for nm, v in self.env.items() if isinstance(v, Tab) and nm in self.defs and v.expr.has(_n)]
+        for nm, v in cands:
+            # the table the stored slices are cut from: the last such definition that a sink reads
+            used = any(any(isinstance(x, ast.Name) and x.id == nm for x in ast.walk(st)) for _, st in self.sinks.values())
+            if used or self.table is None:
+                self.table = (nm, v, self.defs[nm])
+        # ... unless another one is the table of the p+1 block BOUNDARIES and the later ones (lengths, ends) are derived from it: the
+        # boundaries are what the partition rules speak about, whatever derived tables the stores read
+        names = {nm for nm, _ in cands}
+        bounds = [(nm, v) for nm, v in cands if sp.simplify(v.length - (_p + 1)) == 0]
+        roots = [(nm, v) for nm, v in cands
+                 if not any(isinstance(x, ast.Name) and x.id in names - {nm} for x in ast.walk(self.defs[nm].value))]
+        pick = bounds[0] if len(bounds) == 1 else (roots[0] if len(roots) == 1 and not bounds else None)
+        if pick is not None:
+            self.table = (pick[0], pick[1], self.defs[pick[0]])
 
     # ---------------------------------------------------------------- statements after the loop (per-axis arrays)
     def _run_after(self):
@@ -1080,6 +1089,7 @@ def run(chk):
     lay = chk.mod(U.LAYOUT)
     geometry_check(chk, lay)
     init_buffer(chk, lay)
+    coords_follow_comms(chk, lay)
     gather_geometry(chk, lay, "LayoutSwapper._transpose", "dest")
     gather_geometry(chk, lay, "LayoutSwapper._transpose_source_intact", "buf")
     # Grid buffers are allocated with the advertised size
